@@ -1,5 +1,710 @@
 /-
-C05 — property theorems (stub: not built yet).
+C05 — pattern rewrites preserve meaning.
+
+/repo/syntax/tree.go rewrites the parse tree before code generation: loops are made atomic when what
+follows cannot use what they give back (`findAndMakeLoopsAtomic`/`processNode`/`canBeMadeAtomic`),
+backtracking constructs at the end of the pattern, of atomic groups, of lookarounds and of
+conditions are made atomic (`eliminateEndingBacktracking`, `reduceAtomic`, `reduceLookaround`),
+alternations get their common prefixes factored out (`extractCommonPrefixText`,
+`extractCommonPrefixOneNotoneSet`), atomic alternations are trimmed after an empty branch and have
+branches with distinct first characters reordered (`reduceAtomic`), and a bump-along marker is put
+after a leading unbounded single-character loop (`finalOptimize`).
+
+The theorems below are the semantic laws of the backtracking specification (`Spec.m`: the ordered
+list of successes of a pattern from a state) that make each of these rewrites meaning-preserving:
+for every pattern that meets the *semantic* side condition of a law, the rewritten pattern has the
+same ordered successes (or, for the rewrites that are only done where nothing can backtrack into
+the construct, the same first success — which is all that `find` observes there).  Whether the
+*syntactic* tests of tree.go (`MayOverlap`, `CharIn`, node-type case lists) imply the semantic side
+conditions is not proved here; the differential legs of C05 (rewrites on vs. off on the real
+engine) cover that side, and they found the one place where it does not (KF2, see
+`kf2_nonword_loop_before_nonboundary`).
+
+Three strengths of "same meaning" are used (Lemmas/Rewrites.lean): equality of the ordered lists,
+`EqMod e D` (equality after deleting the successes that end at a *dead* position, i.e. one where
+everything that follows fails) and `HeadEq` (same first success).
 -/
+import RegexVerif.Lemmas.Rewrites
+
 namespace RegexVerif.Props.C05
+open RegexVerif RegexVerif.Spec
+
+/-! ### concrete material for the non-vacuity examples -/
+
+/-- an environment over the given text; word characters are `a b c` (97 98 99) -/
+def env (t : List Nat) : Env := { text := t, textstart := 0, named := [], word := [97, 98, 99], fold := [] }
+
+/-- the literal rune `c` -/
+def lit (c : Nat) : Pat := .chr (.one c false)
+/-- `c*` greedy / `c+` greedy / `c*?` lazy -/
+def star (c : Nat) : Pat := .quant false 0 none (lit c)
+def plus (c : Nat) : Pat := .quant false 1 none (lit c)
+def lazyStar (c : Nat) : Pat := .quant true 0 none (lit c)
+def st0 : St := { pos := 0, caps := [] }
+
+/-! ## 0. `m` respects extensional equality of sub-patterns
+
+Every law below is stated for a construct in isolation; these congruences carry it to any place in
+a pattern. -/
+
+/-- equal factors give equal concatenations -/
+theorem seq_congr {e : Env} {a a' b b' : Pat}
+    (ha : ∀ rtl st, m e a rtl st = m e a' rtl st) (hb : ∀ rtl st, m e b rtl st = m e b' rtl st) :
+    ∀ rtl st, m e (.seq a b) rtl st = m e (.seq a' b') rtl st :=
+  fun rtl st => seq_congr_dir (ha rtl) (hb rtl) st
+
+/-- equal branches give equal alternations -/
+theorem alt_congr {e : Env} {a a' b b' : Pat}
+    (ha : ∀ rtl st, m e a rtl st = m e a' rtl st) (hb : ∀ rtl st, m e b rtl st = m e b' rtl st) :
+    ∀ rtl st, m e (.alt a b) rtl st = m e (.alt a' b') rtl st :=
+  fun rtl st => alt_congr_dir (ha rtl) (hb rtl) st
+
+/-- equal bodies give equal loops -/
+theorem quant_congr {e : Env} {a a' : Pat} (lzy : Bool) (lo : Nat) (hi : Option Nat)
+    (ha : ∀ rtl st, m e a rtl st = m e a' rtl st) :
+    ∀ rtl st, m e (.quant lzy lo hi a) rtl st = m e (.quant lzy lo hi a') rtl st :=
+  fun rtl st => quant_congr_dir lzy lo hi (ha rtl) st
+
+/-- equal bodies give equal capture groups -/
+theorem cap_congr {e : Env} {a a' : Pat} (g : Nat) (ha : ∀ rtl st, m e a rtl st = m e a' rtl st) :
+    ∀ rtl st, m e (.cap g a) rtl st = m e (.cap g a') rtl st :=
+  fun rtl st => cap_congr_dir g (ha rtl) st
+
+/-- equal bodies give equal atomic groups -/
+theorem atomic_congr {e : Env} {a a' : Pat} (ha : ∀ rtl st, m e a rtl st = m e a' rtl st) :
+    ∀ rtl st, m e (.atomic a) rtl st = m e (.atomic a') rtl st :=
+  fun rtl st => atomic_congr_dir (ha rtl) st
+
+/-- equal bodies give equal lookarounds (the body runs in the lookaround's own direction) -/
+theorem look_congr {e : Env} {a a' : Pat} (behind neg : Bool) (ha : ∀ rtl st, m e a rtl st = m e a' rtl st) :
+    ∀ rtl st, m e (.look behind neg a) rtl st = m e (.look behind neg a') rtl st :=
+  fun rtl st => look_congr_dir behind neg (ha behind) rtl st
+
+/-- equal branches give equal back-reference conditionals -/
+theorem refCond_congr {e : Env} {a a' b b' : Pat} (g : Nat)
+    (ha : ∀ rtl st, m e a rtl st = m e a' rtl st) (hb : ∀ rtl st, m e b rtl st = m e b' rtl st) :
+    ∀ rtl st, m e (.refCond g a b) rtl st = m e (.refCond g a' b') rtl st :=
+  fun rtl st => refCond_congr_dir g (ha rtl) (hb rtl) st
+
+/-- equal condition and branches give equal expression conditionals -/
+theorem exprCond_congr {e : Env} {c c' a a' b b' : Pat} (hc : ∀ rtl st, m e c rtl st = m e c' rtl st)
+    (ha : ∀ rtl st, m e a rtl st = m e a' rtl st) (hb : ∀ rtl st, m e b rtl st = m e b' rtl st) :
+    ∀ rtl st, m e (.exprCond c a b) rtl st = m e (.exprCond c' a' b') rtl st :=
+  fun rtl st => exprCond_congr_dir (hc rtl) (ha rtl) (hb rtl) st
+
+example : ∀ rtl st, m (env [97, 97]) (.seq (.atomic (.atomic (star 97))) (lit 97)) rtl st
+    = m (env [97, 97]) (.seq (.atomic (star 97)) (lit 97)) rtl st :=
+  seq_congr (fun rtl st => by simp [m, List.take_take]) (fun _ _ => rfl)
+
+/-! ## 1. redundant atomic groups (`reduceAtomic`) -/
+
+/-- `(?>(?>p))` is `(?>p)`: `reduceAtomic` skips nested Atomic nodes. -/
+theorem atomic_idem (e : Env) (p : Pat) (rtl : Bool) (st : St) :
+    m e (.atomic (.atomic p)) rtl st = m e (.atomic p) rtl st := by
+  simp only [m, List.take_take, Nat.min_self]
+
+/-- an atomic group around something that never has more than one success does nothing:
+    `reduceAtomic` drops the Atomic node around Empty, Nothing and already-atomic loops, and
+    `eliminateEndingBacktracking` does not wrap single characters, anchors, back-references. -/
+theorem atomic_single (e : Env) (p : Pat) (rtl : Bool) (h : AtMostOne e rtl p) (st : St) :
+    m e (.atomic p) rtl st = m e p rtl st := by
+  rw [m_atomic]; exact take_one_of_length_le _ (h st)
+
+/-- instance: a single character test -/
+theorem atomic_chr (e : Env) (p : Pred) (rtl : Bool) (st : St) :
+    m e (.atomic (.chr p)) rtl st = m e (.chr p) rtl st := atomic_single e _ rtl (atMostOne_chr e rtl p) st
+
+/-- instance: an anchor -/
+theorem atomic_anchor (e : Env) (a : Anchor) (rtl : Bool) (st : St) :
+    m e (.atomic (.anchor a)) rtl st = m e (.anchor a) rtl st := atomic_single e _ rtl (atMostOne_anchor e rtl a) st
+
+/-- instance: Empty (`reduceAtomic`: "If the child is empty/nothing … the Atomic node can simply be removed") -/
+theorem atomic_empty (e : Env) (rtl : Bool) (st : St) : m e (.atomic .empty) rtl st = m e .empty rtl st :=
+  atomic_single e _ rtl (atMostOne_empty e rtl) st
+
+/-- instance: Nothing -/
+theorem atomic_nothing (e : Env) (rtl : Bool) (st : St) : m e (.atomic .nothing) rtl st = m e .nothing rtl st :=
+  atomic_single e _ rtl (atMostOne_nothing e rtl) st
+
+/-- instance: a back-reference -/
+theorem atomic_ref (e : Env) (g : Nat) (ci : Bool) (rtl : Bool) (st : St) :
+    m e (.atomic (.ref g ci)) rtl st = m e (.ref g ci) rtl st := atomic_single e _ rtl (atMostOne_ref e rtl g ci) st
+
+/-- instance: a lookaround (they are "implicitly atomic") -/
+theorem atomic_look (e : Env) (behind neg : Bool) (p : Pat) (rtl : Bool) (st : St) :
+    m e (.atomic (.look behind neg p)) rtl st = m e (.look behind neg p) rtl st :=
+  atomic_single e _ rtl (atMostOne_look e rtl behind neg p) st
+
+/-- instance: a literal string (concatenation of things with at most one success) and a fixed
+    repeater `x{n}` of such a thing (Multi nodes, `a{3}`) -/
+theorem atomic_seq_single (e : Env) (a b : Pat) (rtl : Bool) (ha : AtMostOne e rtl a) (hb : AtMostOne e rtl b)
+    (st : St) : m e (.atomic (.seq a b)) rtl st = m e (.seq a b) rtl st :=
+  atomic_single e _ rtl (atMostOne_seq ha hb) st
+
+theorem atomic_repeater (e : Env) (lzy : Bool) (n : Nat) (a : Pat) (rtl : Bool) (ha : AtMostOne e rtl a) (st : St) :
+    m e (.atomic (.quant lzy n (some n) a)) rtl st = m e (.quant lzy n (some n) a) rtl st :=
+  atomic_single e _ rtl (atMostOne_quant_fixed lzy n ha) st
+
+/-- `makeLoopAtomic` on a lazy loop: inside an atomic group (or in tail position) a lazy loop
+    `x{lo,hi}?` only ever delivers its shortest success, so it is the repeater `x{lo}`
+    ("we also lower the max number of iterations to the minimum number of iterations"). -/
+theorem atomic_lazy_min (e : Env) (lo : Nat) (hi : Option Nat) (a : Pat) (rtl : Bool)
+    (hhi : ∀ c, c < lo → canGo hi c = true) (st : St) :
+    m e (.atomic (.quant true lo hi a)) rtl st = m e (.atomic (.quant true lo (some lo) a)) rtl st :=
+  atomic_eq_of_headEq (headEq_lazy_min e rtl lo hi a hhi) st
+
+/-- … and when that minimum is 0 the node becomes Empty ("If moving the max to be the same as the
+    min dropped it to 0 … we can make it Empty"). -/
+theorem quant_zero_zero (e : Env) (lzy : Bool) (a : Pat) (rtl : Bool) (st : St) :
+    m e (.quant lzy 0 (some 0) a) rtl st = m e .empty rtl st := by
+  rw [m_quant]
+  cases lzy <;> simp [iter, canGo, m]
+
+example : m (env [97, 97, 97]) (.atomic (.quant true 1 none (lit 97))) false st0 = [⟨1, []⟩] := by decide
+example : m (env [97, 97, 97]) (.quant true 1 none (lit 97)) false st0 = [⟨1, []⟩, ⟨2, []⟩, ⟨3, []⟩] := by decide
+example : m (env [97, 97, 97]) (.atomic (.atomic (star 97))) false st0 = [⟨3, []⟩] := by decide
+
+/-! ## 2. backtracking removal in tail position (`eliminateEndingBacktracking`)
+
+"The correctness of this optimization depends on nothing being able to backtrack into the provided
+node": at the root of the pattern, inside an Atomic node, a lookaround or a condition only the first
+success of the construct is used.  `EndAtomic rtl p q` is the rewrite relation of
+`eliminateEndingBacktracking` (in evaluation direction `rtl`; the Go trees store concatenations in
+evaluation order, so "last child" is the second factor left-to-right and the first factor
+right-to-left, i.e. in lookbehinds). -/
+
+/-- the elementary step: the construct evaluated last may be made atomic (left-to-right:
+    `[xyz](?:abc|def) => [xyz](?>abc|def)`, `ab*` ⇒ `a(?>b*)`) -/
+theorem atomic_at_end (e : Env) (a x : Pat) (st : St) :
+    (m e (.seq a x) false st).head? = (m e (.seq a (.atomic x)) false st).head? :=
+  headEq_seq_ltr a (headEq_atomic e false x) st
+
+/-- right-to-left (inside lookbehinds) the first factor is the one evaluated last -/
+theorem atomic_at_end_rtl (e : Env) (a x : Pat) (st : St) :
+    (m e (.seq a x) true st).head? = (m e (.seq (.atomic a) x) true st).head? :=
+  headEq_seq_rtl x (headEq_atomic e true a) st
+
+/-- when the alternation itself is last, each of its branches is in tail position
+    (`abc*|def* => ab(?>c*)|de(?>f*)`) -/
+theorem alt_last (e : Env) (rtl : Bool) (a a' b b' : Pat) (ha : HeadEq e rtl a a') (hb : HeadEq e rtl b b') :
+    HeadEq e rtl (.alt a b) (.alt a' b') := headEq_alt ha hb
+
+/-- the body of a capture group in tail position is in tail position -/
+theorem cap_last (e : Env) (rtl : Bool) (g : Nat) (a a' : Pat) (ha : HeadEq e rtl a a') :
+    HeadEq e rtl (.cap g a) (.cap g a') := headEq_cap g ha
+
+/-- inside an atomic group the last construct can be made atomic, **with the same ordered list of
+    successes** — so this one is valid anywhere (`reduceAtomic`'s default case) -/
+theorem atomic_inner_end (e : Env) (a x : Pat) (st : St) :
+    m e (.atomic (.seq a x)) false st = m e (.atomic (.seq a (.atomic x))) false st :=
+  atomic_eq_of_headEq (headEq_seq_ltr a (headEq_atomic e false x)) st
+
+/-- the rewrite relation of `eliminateEndingBacktracking` in evaluation direction `rtl` -/
+inductive EndAtomic (e : Env) : Bool → Pat → Pat → Prop
+  | refl (rtl : Bool) (p : Pat) : EndAtomic e rtl p p
+  | trans {rtl : Bool} {p q r : Pat} : EndAtomic e rtl p q → EndAtomic e rtl q r → EndAtomic e rtl p r
+  /-- `makeLoopAtomic` on a greedy loop; wrapping an alternation, conditional or loop in Atomic -/
+  | wrap (rtl : Bool) (p : Pat) : EndAtomic e rtl p (.atomic p)
+  /-- `makeLoopAtomic` on a lazy loop, `case NtLazyloop: node.N = node.M` -/
+  | lazyMin (rtl : Bool) (lo : Nat) (hi : Option Nat) (a : Pat) (h : ∀ c, c < lo → canGo hi c = true) :
+      EndAtomic e rtl (.quant true lo hi a) (.quant true lo (some lo) a)
+  /-- `case NtCapture, NtConcatenate`: recur into the last child -/
+  | seqLtr {x x' : Pat} (a : Pat) : EndAtomic e false x x' → EndAtomic e false (.seq a x) (.seq a x')
+  | seqRtl {a a' : Pat} (x : Pat) : EndAtomic e true a a' → EndAtomic e true (.seq a x) (.seq a' x)
+  | cap {rtl : Bool} {a a' : Pat} (g : Nat) : EndAtomic e rtl a a' → EndAtomic e rtl (.cap g a) (.cap g a')
+  /-- `case NtAlternate, NtBackRefCond, NtExprCond`: every branch -/
+  | alt {rtl : Bool} {a a' b b' : Pat} : EndAtomic e rtl a a' → EndAtomic e rtl b b' → EndAtomic e rtl (.alt a b) (.alt a' b')
+  | refCond {rtl : Bool} {a a' b b' : Pat} (g : Nat) :
+      EndAtomic e rtl a a' → EndAtomic e rtl b b' → EndAtomic e rtl (.refCond g a b) (.refCond g a' b')
+  /-- the condition too (`reduceExpressionConditional`) -/
+  | exprCond {rtl : Bool} {c c' a a' b b' : Pat} :
+      EndAtomic e rtl c c' → EndAtomic e rtl a a' → EndAtomic e rtl b b' → EndAtomic e rtl (.exprCond c a b) (.exprCond c' a' b')
+  /-- `case NtAtomic, NtPosLook, NtNegLook`: the child (a lookaround's child runs in its own direction) -/
+  | atomic {rtl : Bool} {a a' : Pat} : EndAtomic e rtl a a' → EndAtomic e rtl (.atomic a) (.atomic a')
+  | look {rtl : Bool} {a a' : Pat} (behind neg : Bool) :
+      EndAtomic e behind a a' → EndAtomic e rtl (.look behind neg a) (.look behind neg a')
+  /-- `case NtLoop: if node.N == 1` — an optional construct -/
+  | optional {rtl : Bool} {a a' : Pat} (lzy : Bool) (lo : Nat) :
+      EndAtomic e rtl a a' → EndAtomic e rtl (.quant lzy lo (some 1) a) (.quant lzy lo (some 1) a')
+  /-- `case NtLoop` / `NtLazyloop` with `FindLastExpressionInLoopForAutoAtomic`: the last expression
+      of the loop body, when the body cannot start at the positions `D` it gives back
+      (`(?:abc*)* => (?:ab(?>c*))*`); `Prunes` is closed under "last factor of a concatenation"
+      and "body of a capture" and contains "greedy character loop ⇒ its atomic form" -/
+  | loopBody {b b' : Pat} (D : Nat → Bool) (lzy : Bool) (lo : Nat) (hi : Option Nat) :
+      Prunes e D b b' → Kills e D b → EndAtomic e false (.quant lzy lo hi b) (.quant lzy lo hi b')
+
+/-- **ending-backtracking removal preserves the first success**, from every state: all the
+    closure facts above composed. -/
+theorem end_atomic_head (e : Env) {rtl : Bool} {p q : Pat} (h : EndAtomic e rtl p q) : HeadEq e rtl p q := by
+  induction h with
+  | refl rtl p => exact HeadEq.refl e rtl p
+  | trans _ _ ih1 ih2 => exact ih1.trans ih2
+  | wrap rtl p => exact headEq_atomic e rtl p
+  | lazyMin rtl lo hi a h => exact headEq_lazy_min e rtl lo hi a h
+  | seqLtr a _ ih => exact headEq_seq_ltr a ih
+  | seqRtl x _ ih => exact headEq_seq_rtl x ih
+  | cap g _ ih => exact headEq_cap g ih
+  | alt _ _ iha ihb => exact headEq_alt iha ihb
+  | refCond g _ _ iha ihb => exact headEq_refCond g iha ihb
+  | exprCond _ _ _ ihc iha ihb => exact headEq_exprCond ihc iha ihb
+  | atomic _ ih => exact HeadEq.of_eq (atomic_eq_of_headEq ih)
+  | look behind neg _ ih => exact HeadEq.of_eq (look_eq_of_headEq neg ih _)
+  | optional lzy lo _ ih => exact headEq_quant_hi_one lzy lo ih
+  | loopBody D lzy lo hi hp hk => exact headEq_quant_prune lzy lo hi hp hk
+
+/-- **the whole pattern's result is unchanged when its ending backtracking constructs are made
+    atomic** (`finalOptimize`: `rootNode.eliminateEndingBacktracking()`): same match and captures
+    from every start position. -/
+theorem end_atomic_find (e : Env) {rtl : Bool} {p q : Pat} (h : EndAtomic e rtl p q) (start : Nat) :
+    find e p rtl start = find e q rtl start :=
+  find_congr_head (end_atomic_head e h) start
+
+/-- `reduceAtomic`: the same rewrite applied to the body of an atomic group keeps the group's
+    whole list of successes — valid at any place in a pattern. -/
+theorem atomic_body_end_atomic (e : Env) {rtl : Bool} {a a' : Pat} (h : EndAtomic e rtl a a') (st : St) :
+    m e (.atomic a) rtl st = m e (.atomic a') rtl st :=
+  atomic_eq_of_headEq (end_atomic_head e h) st
+
+/-- `reduceLookaround`: likewise for the body of a lookahead/lookbehind (direction `behind`). -/
+theorem look_body_end_atomic (e : Env) {behind : Bool} {a a' : Pat} (neg : Bool) (h : EndAtomic e behind a a')
+    (rtl : Bool) (st : St) :
+    m e (.look behind neg a) rtl st = m e (.look behind neg a') rtl st :=
+  look_eq_of_headEq neg (end_atomic_head e h) rtl st
+
+/-- `reduceExpressionConditional`: likewise for the condition of `(?(cond)yes|no)`. -/
+theorem exprCond_condition_end_atomic (e : Env) {rtl : Bool} {c c' : Pat} (a b : Pat) (h : EndAtomic e rtl c c') (st : St) :
+    m e (.exprCond c a b) rtl st = m e (.exprCond c' a b) rtl st :=
+  exprCond_eq_of_headEq a b (end_atomic_head e h) st
+
+/-- `x(?:ab*|c+)?` ⇒ `x(?>(?:a(?>b*)|(?>c+))?)`: an instance of the relation -/
+example (e : Env) : EndAtomic e false
+    (.seq (lit 120) (.quant false 0 (some 1) (.alt (.seq (lit 97) (star 98)) (plus 99))))
+    (.seq (lit 120) (.atomic (.quant false 0 (some 1) (.alt (.seq (lit 97) (.atomic (star 98))) (.atomic (plus 99)))))) :=
+  .seqLtr _ (.trans (.optional _ _ (.alt (.seqLtr _ (.wrap _ _)) (.wrap _ _))) (.wrap _ _))
+
+/-- **a loop in tail position whose body ends in a character loop**: `(?:x c*)*` ⇒ `(?:x (?>c*))*`
+    when `x` fails in front of a rune that `c*` accepts (`StartsOutside e p x` of section 3; the condition
+    `lastConcatChild.canBeMadeAtomic(node.Children[0], false, false)` of
+    `FindLastExpressionInLoopForAutoAtomic`).  The positions `c*` gives back are not lost for the
+    loop's *exit* (nothing kills them there — this is the tail of the pattern), but they all come
+    after the first success. -/
+theorem loop_body_at_end (e : Env) (p : Pred) (lo' : Nat) (hi' : Option Nat) (x : Pat)
+    (hx : Kills e (acc e p) x) (lzy : Bool) (lo : Nat) (hi : Option Nat) :
+    HeadEq e false (.quant lzy lo hi (.seq x (.quant false lo' hi' (.chr p))))
+      (.quant lzy lo hi (.seq x (.atomic (.quant false lo' hi' (.chr p))))) :=
+  end_atomic_head e (.loopBody (acc e p) lzy lo hi ((prunes_charloop e p lo' hi').seq_last x) (kills_seq_first _ hx))
+
+/-- `(?:ab*)*` on "abbab": the full lists differ, the heads agree -/
+example : m (env [97, 98, 98, 97, 98]) (.quant false 0 none (.seq (lit 97) (star 98))) false st0
+      = [⟨5, []⟩, ⟨4, []⟩, ⟨3, []⟩, ⟨2, []⟩, ⟨1, []⟩, ⟨0, []⟩]
+    ∧ m (env [97, 98, 98, 97, 98]) (.quant false 0 none (.seq (lit 97) (.atomic (star 98)))) false st0
+      = [⟨5, []⟩, ⟨3, []⟩, ⟨0, []⟩] := by decide
+
+/-- the law is about the head only: the full lists differ (so the rewrite must not be applied where
+    something can backtrack into the construct) -/
+example : m (env [97, 98, 98]) (.seq (lit 97) (star 98)) false st0 = [⟨3, []⟩, ⟨2, []⟩, ⟨1, []⟩]
+    ∧ m (env [97, 98, 98]) (.seq (lit 97) (.atomic (star 98))) false st0 = [⟨3, []⟩] := by decide
+
+/-- a lookbehind `(?<=b[ab]*)`: the factor evaluated last is `b`; making the *other* factor
+    `[ab]*` atomic would be wrong ("ba", position 2) -/
+example : m (env [98, 97]) (.seq (lit 98) (.quant false 0 none (.chr (.set (.base false [(97, 98)] []) false)))) true ⟨2, []⟩
+      = [⟨0, []⟩]
+    ∧ m (env [98, 97]) (.seq (lit 98) (.atomic (.quant false 0 none (.chr (.set (.base false [(97, 98)] []) false))))) true ⟨2, []⟩
+      = [] := by decide
+
+/-! ## 3. auto-atomic loops (`findAndMakeLoopsAtomic`, `processNode`, `canBeMadeAtomic`) -/
+
+/-- what follows the loop (`k`) **starts outside** the loop's character test `p`: from a position
+    whose next rune exists and is accepted by `p`, `k` has no success.  (Every success of `k` starts
+    at a rune that `p` rejects, or at the end of the input.)  This is what `canBeMadeAtomic` decides
+    syntactically: a disjoint character/set/string next, a mandatory loop of one, `\z`, `$` when the
+    loop cannot eat `'\n'`, possibly after nullable loops of disjoint characters. -/
+def StartsOutside (e : Env) (p : Pred) (k : Pat) : Prop := Kills e (acc e p) k
+
+/-- the formulation "every success of `k` first consumes a rune that `p` rejects" implies it -/
+theorem startsOutside_of_first_rune (e : Env) (p : Pred) (k : Pat)
+    (h : ∀ st st', st' ∈ m e k false st → ∃ r, e.text[st.pos]? = some r ∧ p.test e r = false) :
+    StartsOutside e p k := by
+  intro st hd
+  cases hm : m e k false st with
+  | nil => rfl
+  | cons y ys =>
+    obtain ⟨r, hr, hp⟩ := h st y (by rw [hm]; simp)
+    simp [acc, hr, hp] at hd
+
+/-- **`A*B` with `A`, `B` disjoint is `(?>A*)B`**: a greedy single-character loop followed by
+    something that starts outside its character test has the same ordered successes as the atomic
+    loop — the shorter iterations can never be continued, because the rune after a shorter prefix is
+    one the loop accepts.  (`processNode`, `case NtOneloop, NtNotoneloop, NtSetloop`.) -/
+theorem loop_atomic_disjoint (e : Env) (p : Pred) (lo : Nat) (hi : Option Nat) (k : Pat)
+    (hk : StartsOutside e p k) (st : St) :
+    m e (.seq (.quant false lo hi (.chr p)) k) false st
+      = m e (.seq (.atomic (.quant false lo hi (.chr p))) k) false st :=
+  (charloop_eqMod_atomic e p lo hi).seq_kill k hk st
+
+/-- **`A*?B` with `A`, `B` disjoint is `(?>A*)B`**: the lazy loop has to run to the end of the run
+    before `B` can match, so it becomes the *greedy* atomic loop (`processNode`,
+    `case NtOnelazy, …`: "lazy to greedy"). -/
+theorem lazy_loop_atomic_disjoint (e : Env) (p : Pred) (lo : Nat) (hi : Option Nat) (k : Pat)
+    (hk : StartsOutside e p k) (st : St) :
+    m e (.seq (.quant true lo hi (.chr p)) k) false st
+      = m e (.seq (.atomic (.quant false lo hi (.chr p))) k) false st :=
+  (lazy_charloop_eqMod_atomic e p lo hi).seq_kill k hk st
+
+/-- the characterisation the law rests on: from `st`, the greedy loop `p{lo,hi}` succeeds exactly at
+    `st.pos + j` for `lo ≤ j ≤ min(run, hi)`, longest first, captures untouched -/
+theorem charloop_successes (e : Env) (p : Pred) (lo : Nat) (hi : Option Nat) (st : St) :
+    m e (.quant false lo hi (.chr p)) false st =
+      (List.range (capN hi 0 (runLen e p st.pos) + 1 - lo)).reverse.map
+        (fun j => { st with pos := st.pos + lo + j }) :=
+  Spec.charloop_successes e p lo hi st
+
+/-- … and every success but the first is followed by a rune the loop accepts -/
+theorem charloop_nonfirst_followed (e : Env) (p : Pred) (lo : Nat) (hi : Option Nat) (st : St) :
+    ∀ t ∈ (m e (.quant false lo hi (.chr p)) false st).tail, acc e p t.pos = true := by
+  intro t ht; rw [m_quant] at ht; exact charloop_tail_next e p lo hi _ 0 st t ht
+
+/-! side conditions of `canBeMadeAtomic` that imply `StartsOutside` -/
+
+/-- a disjoint character test next (`One`/`Notone`/`Set` with `CharIn`/`MayOverlap` false) -/
+theorem startsOutside_chr (e : Env) (p q : Pred) (h : ∀ r, p.test e r = true → q.test e r = false) :
+    StartsOutside e p (.chr q) := kills_chr h
+
+/-- … followed by anything (a Multi string, the rest of the concatenation) -/
+theorem startsOutside_seq (e : Env) (p : Pred) (k1 k2 : Pat) (h : StartsOutside e p k1) :
+    StartsOutside e p (.seq k1 k2) := kills_seq_first k2 h
+
+/-- a loop with a positive minimum over something that starts outside (`subsequent.M > 0`) -/
+theorem startsOutside_quant (e : Env) (p : Pred) (lzy : Bool) (lo : Nat) (hi : Option Nat) (k : Pat)
+    (hlo : 1 ≤ lo) (h : StartsOutside e p k) : StartsOutside e p (.quant lzy lo hi k) := kills_quant lzy hi hlo h
+
+/-- an optional loop over something that starts outside, followed by something that starts
+    outside (`subsequent.M == 0 … goto end`: "we'll need to evaluate the next one as well") -/
+theorem startsOutside_nullable_then (e : Env) (p : Pred) (lzy : Bool) (lo : Nat) (hi : Option Nat) (k1 k2 : Pat)
+    (h1 : StartsOutside e p k1) (h2 : StartsOutside e p k2) :
+    StartsOutside e p (.seq (.quant lzy lo hi k1) k2) := kills_seq_stays (stays_quant lzy lo hi h1) h2
+
+/-- an alternation all of whose branches start outside -/
+theorem startsOutside_alt (e : Env) (p : Pred) (k1 k2 : Pat) (h1 : StartsOutside e p k1) (h2 : StartsOutside e p k2) :
+    StartsOutside e p (.alt k1 k2) := kills_alt h1 h2
+
+/-- captures, atomic groups and positive lookaheads are looked through -/
+theorem startsOutside_cap (e : Env) (p : Pred) (g : Nat) (k : Pat) (h : StartsOutside e p k) :
+    StartsOutside e p (.cap g k) := kills_cap g h
+theorem startsOutside_atomic (e : Env) (p : Pred) (k : Pat) (h : StartsOutside e p k) :
+    StartsOutside e p (.atomic k) := kills_atomic h
+theorem startsOutside_lookahead (e : Env) (p : Pred) (k : Pat) (h : StartsOutside e p k) :
+    StartsOutside e p (.look false false k) := kills_lookahead h
+
+/-- `\z` (`subsequent.T == NtEnd`) -/
+theorem startsOutside_end (e : Env) (p : Pred) : StartsOutside e p (.anchor .end) := kills_end e p
+
+/-- `$` with `Multiline` / `\Z` / `$`, when the loop does not accept `'\n'`
+    (`subsequent.T == NtEol && n.Ch != '\n'`, `!n.Set.CharIn('\n')`) -/
+theorem startsOutside_eol (e : Env) (p : Pred) (h : p.test e 10 = false) : StartsOutside e p (.anchor .eol) := kills_eol h
+theorem startsOutside_endz (e : Env) (p : Pred) (h : p.test e 10 = false) : StartsOutside e p (.anchor .endz) := kills_endz h
+
+/-- `a*b` on "aab": the loop has three successes, `b` can only continue the longest -/
+example : StartsOutside (env [97, 97, 98]) (.one 97 false) (lit 98) :=
+  startsOutside_chr _ _ _ (fun r h => by simp [Pred.test] at h ⊢; omega)
+example : m (env [97, 97, 98]) (star 97) false st0 = [⟨2, []⟩, ⟨1, []⟩, ⟨0, []⟩] := by decide
+example : m (env [97, 97, 98]) (.seq (.atomic (star 97)) (lit 98)) false st0 = [⟨3, []⟩] := by decide
+
+/-- the side condition is needed: `a*a` is not `(?>a*)a` -/
+example : m (env [97, 97]) (.seq (star 97) (lit 97)) false st0 ≠ m (env [97, 97]) (.seq (.atomic (star 97)) (lit 97)) false st0 := by
+  decide
+
+/-- the places `processNode` reaches from the node in front of `subsequent`: the loop itself, the
+    last child of concatenations, capture bodies, every branch of alternations and conditionals,
+    and the last expression of a loop body whose first expression also fails at the dead positions
+    (`FindLastExpressionInLoopForAutoAtomic`).  `D` is the set of dead positions. -/
+inductive AutoAtomic (e : Env) (D : Nat → Bool) : Pat → Pat → Prop
+  | refl (x : Pat) : AutoAtomic e D x x
+  | greedy (p : Pred) (lo : Nat) (hi : Option Nat) (hD : ∀ i, acc e p i = true → D i = true) :
+      AutoAtomic e D (.quant false lo hi (.chr p)) (.atomic (.quant false lo hi (.chr p)))
+  | lazy (p : Pred) (lo : Nat) (hi : Option Nat) (hD : ∀ i, acc e p i = true → D i = true) :
+      AutoAtomic e D (.quant true lo hi (.chr p)) (.atomic (.quant false lo hi (.chr p)))
+  /-- a loop with `lo ≥ 1`: the positions given back lie *between* two accepted runes -/
+  | greedyBetween (p : Pred) (lo : Nat) (hi : Option Nat) (hlo : 1 ≤ lo)
+      (hD : ∀ i, (prevAcc e p i && acc e p i) = true → D i = true) :
+      AutoAtomic e D (.quant false lo hi (.chr p)) (.atomic (.quant false lo hi (.chr p)))
+  | seqLast {x x' : Pat} (a : Pat) : AutoAtomic e D x x' → AutoAtomic e D (.seq a x) (.seq a x')
+  | cap {x x' : Pat} (g : Nat) : AutoAtomic e D x x' → AutoAtomic e D (.cap g x) (.cap g x')
+  | alt {a a' b b' : Pat} : AutoAtomic e D a a' → AutoAtomic e D b b' → AutoAtomic e D (.alt a b) (.alt a' b')
+  | refCond {a a' b b' : Pat} (g : Nat) :
+      AutoAtomic e D a a' → AutoAtomic e D b b' → AutoAtomic e D (.refCond g a b) (.refCond g a' b')
+  | exprCond {a a' b b' : Pat} (c : Pat) :
+      AutoAtomic e D a a' → AutoAtomic e D b b' → AutoAtomic e D (.exprCond c a b) (.exprCond c a' b')
+  | loop {b b' : Pat} (lzy : Bool) (lo : Nat) (hi : Option Nat) :
+      AutoAtomic e D b b' → Kills e D b → Kills e D b' → AutoAtomic e D (.quant lzy lo hi b) (.quant lzy lo hi b')
+
+/-- the rewritten construct has the same ordered successes except at dead positions -/
+theorem auto_atomic_eqMod {e : Env} {D : Nat → Bool} {x x' : Pat} (h : AutoAtomic e D x x') : EqMod e D false x x' := by
+  induction h with
+  | refl x => exact EqMod.refl e D false x
+  | greedy p lo hi hD => exact (charloop_eqMod_atomic e p lo hi).mono hD
+  | lazy p lo hi hD => exact (lazy_charloop_eqMod_atomic e p lo hi).mono hD
+  | greedyBetween p lo hi hlo hD => exact (charloop_eqMod_atomic_between e p lo hi hlo).mono hD
+  | seqLast a _ ih => exact ih.seq_last a
+  | cap g _ ih => exact ih.cap g
+  | alt _ _ iha ihb => exact iha.alt ihb
+  | refCond g _ _ iha ihb => exact iha.refCond g ihb
+  | exprCond c _ _ iha ihb => exact iha.exprCond c ihb
+  | loop lzy lo hi _ hb hb' ih => exact ih.quant lzy lo hi hb hb'
+
+/-- **auto-atomicity in context**: loops made atomic anywhere `processNode` looks — `(x a*)b`,
+    `(?:xa*|yc*)b`, `(?:b a*)+c` — keep the ordered successes of the concatenation with what
+    follows, provided what follows fails at the dead positions. -/
+theorem auto_atomic_sound {e : Env} {D : Nat → Bool} {x x' : Pat} (h : AutoAtomic e D x x') (k : Pat)
+    (hk : Kills e D k) (st : St) : m e (.seq x k) false st = m e (.seq x' k) false st :=
+  (auto_atomic_eqMod h).seq_kill k hk st
+
+/-- `(x a*|c*)b` ⇒ `(x(?>a*)|(?>c*))b` -/
+example (t : List Nat) (st : St) :
+    m (env t) (.seq (.cap 1 (.alt (.seq (lit 120) (star 97)) (star 99))) (lit 98)) false st
+      = m (env t) (.seq (.cap 1 (.alt (.seq (lit 120) (.atomic (star 97))) (.atomic (star 99)))) (lit 98)) false st := by
+  let D : Nat → Bool := fun i => acc (env t) (.one 97 false) i || acc (env t) (.one 99 false) i
+  refine auto_atomic_sound (D := D)
+    (.cap 1 (.alt (.seqLast _ (.greedy _ 0 none (fun i h => by simp [D, h])))
+      (.greedy _ 0 none (fun i h => by simp [D, h])))) _ ?_ st
+  intro s hs
+  simp only [D, Bool.or_eq_true] at hs
+  rcases hs with hs | hs
+  · exact kills_chr (p := .one 97 false) (fun r h => by simp [Pred.test] at h ⊢; omega) s hs
+  · exact kills_chr (p := .one 99 false) (fun r h => by simp [Pred.test] at h ⊢; omega) s hs
+
+/-- **a loop over word characters with `lo ≥ 1` in front of `\b`** (`subsequent.T == NtBoundary &&
+    n.M > 0 && IsWordChar(n.Ch)`, `n.Set.Equals(WordClass())`): a position the loop gives back lies
+    between two word characters, where `\b` fails — whatever comes after the `\b`. -/
+theorem loop_atomic_before_boundary (e : Env) (p : Pred) (lo : Nat) (hi : Option Nat) (hlo : 1 ≤ lo)
+    (hw : ∀ r, p.test e r = true → e.isWord r = true) (k : Pat) (st : St) :
+    m e (.seq (.quant false lo hi (.chr p)) (.seq (.anchor .boundary) k)) false st
+      = m e (.seq (.atomic (.quant false lo hi (.chr p))) (.seq (.anchor .boundary) k)) false st :=
+  (charloop_eqMod_atomic_between e p lo hi hlo).seq_kill _ (kills_seq_first k (kills_boundary hw)) st
+
+example : m (env [97, 97, 45]) (.seq (plus 97) (.seq (.anchor .boundary) .empty)) false st0 = [⟨2, []⟩] := by decide
+
+/-- **KNOWN FINDING KF2 — the mirror-image condition for `\B` is false.**  `canBeMadeAtomic` also
+    accepts `subsequent.T == NtNonboundary && n.M > 0 && !IsWordChar(n.Ch)` (and `\W+`, `\D+` before
+    `\B`).  But a position given back by a loop over non-word characters lies between two non-word
+    characters, and there `\B` HOLDS: `-+\B` on "--b" matches (0,1) by backtracking and has no match
+    with the atomic loop.  (Engine: rewrites on → no match, rewrites off → (0,1).) -/
+theorem kf2_nonword_loop_before_nonboundary :
+    m (env [45, 45, 98]) (.seq (plus 45) (.anchor .nonboundary)) false st0 = [⟨1, []⟩]
+    ∧ m (env [45, 45, 98]) (.seq (.atomic (plus 45)) (.anchor .nonboundary)) false st0 = [] := by decide
+
+/-- why: between two runes accepted by a loop over non-word characters `\B` succeeds -/
+theorem nonboundary_holds_where_loop_gives_back (e : Env) (p : Pred) (hw : ∀ r, p.test e r = true → e.isWord r = false)
+    (st : St) (hd : (prevAcc e p st.pos && acc e p st.pos) = true) :
+    m e (.anchor .nonboundary) false st = [st] := nonboundary_holds_between hw st hd
+
+/-! ## 4. alternation prefix factoring (`extractCommonPrefixText`, `extractCommonPrefixOneNotoneSet`) -/
+
+/-- **`xa|xb` is `x(?:a|b)`** when `x` has at most one success from the state (a literal string, a
+    single character test, a fixed-count or atomic loop — exactly the prefixes the two functions
+    extract).  Left-to-right only, as in the Go code ("Only extract left-to-right prefixes"). -/
+theorem prefix_factor (e : Env) (x a b : Pat) (st : St) (hx : (m e x false st).length ≤ 1) :
+    m e (.alt (.seq x a) (.seq x b)) false st = m e (.seq x (.alt a b)) false st := by
+  simp only [m, Bool.false_eq_true, if_false]
+  exact flatMap_append_of_length_le_one _ hx _ _
+
+/-- `extractCommonPrefixText`: the prefix is a literal string (One/Multi), which has at most one
+    success from every state, so the law applies unconditionally; a branch that *is* the prefix
+    leaves `Empty` behind (`processOneOrMulti`), `x` ≡ `x·Empty`. -/
+theorem prefix_factor_text (e : Env) (cs : List Nat) (a b : Pat) (st : St) :
+    m e (.alt (.seq (seqOf (cs.map lit)) a) (.seq (seqOf (cs.map lit)) b)) false st
+      = m e (.seq (seqOf (cs.map lit)) (.alt a b)) false st :=
+  prefix_factor e _ a b st
+    (atMostOne_seqOf _ (fun x hx => by
+      obtain ⟨c, _, rfl⟩ := List.mem_map.mp hx
+      exact atMostOne_chr e false _) st)
+
+theorem prefix_is_branch (e : Env) (x : Pat) (rtl : Bool) (st : St) : m e (.seq x .empty) rtl st = m e x rtl st :=
+  seq_empty_right e x rtl st
+
+/-- `extractCommonPrefixOneNotoneSet`: the prefix is one and the same One/Notone/Set node or a
+    fixed-count loop of one (`required.M == required.N`) -/
+theorem prefix_factor_repeater (e : Env) (p : Pred) (lzy : Bool) (n : Nat) (a b : Pat) (st : St) :
+    m e (.alt (.seq (.quant lzy n (some n) (.chr p)) a) (.seq (.quant lzy n (some n) (.chr p)) b)) false st
+      = m e (.seq (.quant lzy n (some n) (.chr p)) (.alt a b)) false st :=
+  prefix_factor e _ a b st (atMostOne_quant_fixed lzy n (atMostOne_chr e false p) st)
+
+/-- n-ary form, inside a longer alternation: the branches `[startingIndex, endingIndex)` that share
+    the prefix are replaced by one branch `x(?:…)`; the branches before and after stay. -/
+theorem prefix_factor_range (e : Env) (x : Pat) (pre bs post : List Pat) (st : St)
+    (hx : (m e x false st).length ≤ 1) :
+    m e (altOf (pre ++ bs.map (fun b => .seq x b) ++ post)) false st
+      = m e (altOf (pre ++ [.seq x (altOf bs)] ++ post)) false st := by
+  simp only [m_altOf, List.flatMap_append, List.flatMap_cons, List.flatMap_nil, List.append_nil, List.flatMap_map]
+  congr 2
+  simp only [m, Bool.false_eq_true, if_false]
+  match hm : m e x false st, hx with
+  | [], _ => simp
+  | [y], _ => simp [m_altOf]
+
+/-- if the alternation is inside an atomic group, the new inner alternation is made atomic too
+    ("If this alternation is wrapped as atomic, we need to do the same for the new alternation") -/
+theorem prefix_factor_atomic (e : Env) (x a b : Pat) (st : St) (hx : (m e x false st).length ≤ 1) :
+    m e (.atomic (.alt (.seq x a) (.seq x b))) false st = m e (.atomic (.seq x (.atomic (.alt a b)))) false st := by
+  rw [← atomic_inner_end, m_atomic, m_atomic, prefix_factor e x a b st hx]
+
+/-- the mirror images need no side condition: a common *last* factor left-to-right -/
+theorem suffix_factor (e : Env) (x a b : Pat) (st : St) :
+    m e (.alt (.seq a x) (.seq b x)) false st = m e (.seq (.alt a b) x) false st := by
+  simp [m, List.flatMap_append]
+
+example : m (env [97, 98, 100]) (.alt (.seq (lit 97) (.seq (lit 98) (lit 99))) (.seq (lit 97) (.seq (lit 98) (lit 100)))) false st0
+    = [⟨3, []⟩] := by decide
+example : (m (env [97, 98, 100]) (.seq (lit 97) (lit 98)) false st0).length ≤ 1 := by decide
+
+/-- the side condition is needed ("doing it for non-atomic variable length loops could change
+    behavior"): `a*a|a*b` is not `a*(?:a|b)` -/
+example : m (env [97, 97, 98]) (.alt (.seq (star 97) (lit 97)) (.seq (star 97) (lit 98))) false st0
+    ≠ m (env [97, 97, 98]) (.seq (star 97) (.alt (lit 97) (lit 98))) false st0 := by decide
+
+/-! ## 5. trimming an atomic alternation after an empty branch (`reduceAtomic`) -/
+
+/-- branches after an Empty branch of an atomic alternation are never used -/
+theorem atomic_alt_trim (e : Env) (a b : Pat) (rtl : Bool) (st : St) :
+    m e (.atomic (.alt a (.alt .empty b))) rtl st = m e (.atomic (.alt a .empty)) rtl st := by
+  simp only [m]
+  cases m e a rtl st <;> simp
+
+/-- an atomic alternation whose first branch is Empty is Empty -/
+theorem atomic_alt_empty_first (e : Env) (b : Pat) (rtl : Bool) (st : St) :
+    m e (.atomic (.alt .empty b)) rtl st = [st] := by
+  simp [m]
+
+/-- n-ary form: everything after the first Empty branch is dropped -/
+theorem atomic_altOf_trim (e : Env) (pre post : List Pat) (rtl : Bool) (st : St) :
+    m e (.atomic (altOf (pre ++ .empty :: post))) rtl st = m e (.atomic (altOf (pre ++ [.empty]))) rtl st := by
+  rw [m_atomic, m_atomic, m_altOf, m_altOf]
+  simp only [List.flatMap_append, List.flatMap_cons, List.flatMap_nil, m]
+  cases pre.flatMap (fun a => m e a rtl st) <;> simp
+
+example : m (env [97]) (.atomic (.alt (lit 98) (.alt .empty (lit 97)))) false st0 = [st0] := by decide
+/-- not without the atomic group -/
+example : m (env [97]) (.alt (lit 98) (.alt .empty (lit 97))) false st0 = [st0, ⟨1, []⟩] := by decide
+
+/-! ## 6. reordering exclusive branches (`reduceAtomic`: "hi|there|hello" ⇒ "hi|hello|there") -/
+
+/-- two adjacent branches that cannot both succeed from the same state may be swapped — the ordered
+    list of successes does not change at all (so this holds with or without the atomic group; the
+    Go code only does it inside one) -/
+theorem alt_swap_exclusive (e : Env) (a b : Pat) (rtl : Bool) (h : Exclusive e rtl a b) (st : St) :
+    m e (.alt a b) rtl st = m e (.alt b a) rtl st := by
+  simp only [m]
+  rcases h st with h | h <;> simp [h]
+
+/-- the law as the Go comment states it: inside an atomic group -/
+theorem atomic_alt_reorder (e : Env) (a b : Pat) (rtl : Bool) (h : ∀ st, m e a rtl st = [] ∨ m e b rtl st = [])
+    (st : St) : m e (.atomic (.alt a b)) rtl st = m e (.atomic (.alt b a)) rtl st := by
+  rw [m_atomic, m_atomic, alt_swap_exclusive e a b rtl h st]
+
+/-- inside a longer alternation: a branch `b` is moved in front of a block `xs` of branches each of
+    which is exclusive with it (the branches with a different first character that it jumps over) -/
+theorem altOf_move_exclusive (e : Env) (pre xs post : List Pat) (b : Pat) (rtl : Bool)
+    (h : ∀ x ∈ xs, Exclusive e rtl x b) (st : St) :
+    m e (altOf (pre ++ xs ++ b :: post)) rtl st = m e (altOf (pre ++ b :: xs ++ post)) rtl st := by
+  simp only [m_altOf, List.flatMap_append, List.flatMap_cons, List.append_assoc]
+  congr 1
+  cases hb : m e b rtl st with
+  | nil => simp
+  | cons y ys =>
+    have : xs.flatMap (fun a => m e a rtl st) = [] := by
+      rw [List.flatMap_eq_nil_iff]
+      intro x hx
+      rcases h x hx st with h1 | h1
+      · exact h1
+      · rw [hb] at h1; cases h1
+    simp [this]
+
+/-- hence the same for the atomic alternation -/
+theorem atomic_altOf_reorder (e : Env) (pre xs post : List Pat) (b : Pat) (rtl : Bool)
+    (h : ∀ x ∈ xs, Exclusive e rtl x b) (st : St) :
+    m e (.atomic (altOf (pre ++ xs ++ b :: post))) rtl st = m e (.atomic (altOf (pre ++ b :: xs ++ post))) rtl st := by
+  rw [m_atomic, m_atomic, altOf_move_exclusive e pre xs post b rtl h st]
+
+/-- the instance the Go code uses: branches that begin with different literal runes are exclusive
+    (left-to-right; the case-insensitive variants have been turned into sets before, so a One node
+    is an exact rune) -/
+theorem exclusive_first_rune (e : Env) (c d : Nat) (hcd : c ≠ d) (a b : Pat) :
+    Exclusive e false (.seq (lit c) a) (.seq (lit d) b) := exclusive_of_first_rune e hcd a b
+
+/-- "hi|there|hello" ⇒ "hi|hello|there" -/
+example (e : Env) (st : St) :
+    m e (altOf [.seq (lit 104) (lit 105), .seq (lit 116) (lit 104), .seq (lit 104) (lit 101)]) false st
+      = m e (altOf [.seq (lit 104) (lit 105), .seq (lit 104) (lit 101), .seq (lit 116) (lit 104)]) false st :=
+  altOf_move_exclusive e [.seq (lit 104) (lit 105)] [.seq (lit 116) (lit 104)] [] (.seq (lit 104) (lit 101)) false
+    (fun x hx => by
+      simp only [List.mem_singleton] at hx; subst hx
+      exact exclusive_first_rune e 116 104 (by decide) _ _) st
+
+/-- the side condition is needed even inside an atomic group: `(?>a|ab)` is not `(?>ab|a)` -/
+example : m (env [97, 98]) (.atomic (.alt (lit 97) (.seq (lit 97) (lit 98)))) false st0
+    ≠ m (env [97, 98]) (.atomic (.alt (.seq (lit 97) (lit 98)) (lit 97))) false st0 := by decide
+
+/-! ## 7. the bump-along marker (`finalOptimize`, `UpdateBumpalong`) -/
+
+/-- **bump-along is sound.**  The pattern starts with an unbounded single-character loop `L`
+    (`Front`: first factor of possibly nested concatenations and — for a greedy loop — possibly
+    inside atomic groups; not under a capture or alternation).  If the attempt at `i` fails, so does
+    the attempt at every `j` inside the run of the loop's character starting at `i`
+    (`i < j ≤ i + run`): from `j` the loop reaches only states it already reached from `i`, in the
+    same order.  The scan may therefore resume after the run. -/
+theorem bumpalong_sound (e : Env) (q : Pred) (lo : Nat) (F : Pat)
+    (hF : Front (.quant false lo none (.chr q)) true F) (i j : Nat) (hij : i < j) (hj : j ≤ i + runLen e q i)
+    (hfail : attempt e F false i = none) : attempt e F false j = none := by
+  rw [attempt_eq_none_iff] at hfail ⊢
+  exact eq_nil_of_prefix_nil (front_prefix_within_run e q lo i j [] (by omega) hj hF) hfail
+
+/-- the lazy loop: same statement when the loop is not inside an atomic group (the successes from
+    `j` are then a subset, in a different order, of those from `i`) -/
+theorem bumpalong_sound_lazy (e : Env) (q : Pred) (lzy : Bool) (lo : Nat) (F : Pat)
+    (hF : Front (.quant lzy lo none (.chr q)) false F) (i j : Nat) (hij : i < j) (hj : j ≤ i + runLen e q i)
+    (hfail : attempt e F false i = none) : attempt e F false j = none := by
+  rw [attempt_eq_none_iff] at hfail ⊢
+  cases hm : m e F false ⟨j, []⟩ with
+  | nil => rfl
+  | cons y ys =>
+    have := front_subset_within_run e q lzy lo i j [] (by omega) hj hF y (by rw [hm]; simp)
+    rw [hfail] at this; cases this
+
+/-- the plain form: `p = L k` -/
+theorem bumpalong_sound_seq (e : Env) (q : Pred) (lzy : Bool) (lo : Nat) (k : Pat) (i j : Nat)
+    (hij : i < j) (hj : j ≤ i + runLen e q i)
+    (hfail : attempt e (.seq (.quant lzy lo none (.chr q)) k) false i = none) :
+    attempt e (.seq (.quant lzy lo none (.chr q)) k) false j = none :=
+  bumpalong_sound_lazy e q lzy lo _ (.seq k .here) i j hij hj hfail
+
+/-- scan level: after a failed attempt at `i` the search may resume anywhere up to one past the
+    run (the interpreter resumes at `i + run + 1`, or at `i + 1` if the run is empty) -/
+theorem bumpalong_find (e : Env) (q : Pred) (lo : Nat) (F : Pat)
+    (hF : Front (.quant false lo none (.chr q)) true F) (i s : Nat) (his : i < s) (hs : s ≤ i + runLen e q i + 1)
+    (hfail : attempt e F false i = none) : find e F false (i + 1) = find e F false s :=
+  find_skip e F i s his (fun j h1 h2 => bumpalong_sound e q lo F hF i j h1 (by omega) hfail)
+
+/-- `a+b` on "aaac": the attempt at 0 fails, so do those at 1, 2, 3 -/
+example : attempt (env [97, 97, 97, 99]) (.seq (plus 97) (lit 98)) false 0 = none
+    ∧ runLen (env [97, 97, 97, 99]) (.one 97 false) 0 = 3 := by decide
+
+example : attempt (env [97, 97, 97, 99]) (.seq (plus 97) (lit 98)) false 2 = none :=
+  bumpalong_sound (env [97, 97, 97, 99]) (.one 97 false) 1 _ (.seq _ .here) 0 2 (by decide) (by decide) (by decide)
+
+/-- the marker itself is `Empty` for the specification (the tree → `Pat` conversion of the harness
+    maps `UpdateBumpalong` to `.empty`), and `Empty` in a concatenation is a no-op -/
+theorem bumpalong_noop (e : Env) (l k : Pat) (rtl : Bool) (st : St) :
+    m e (.seq l (.seq .empty k)) rtl st = m e (.seq l k) rtl st := by
+  cases rtl <;> simp [m]
+
+/-- **the lazy loop inside an atomic group is the exception** (fixed in /repo by "no bump-along
+    marker after a lazy loop that sits inside an atomic group", 6711234): `(?>a+?b?)c` on "aabc" —
+    the attempt at 0 fails (the group commits to "a"), the attempt at 1, inside the run "aa",
+    succeeds with (1,3). -/
+theorem bumpalong_lazy_in_atomic_counterexample :
+    let p : Pat := .seq (.atomic (.seq (.quant true 1 none (lit 97)) (.quant false 0 (some 1) (lit 98)))) (lit 99)
+    attempt (env [97, 97, 98, 99]) p false 0 = none
+    ∧ runLen (env [97, 97, 98, 99]) (.one 97 false) 0 = 2
+    ∧ attempt (env [97, 97, 98, 99]) p false 1 = some ⟨4, [(0, 1, 3)]⟩ := by decide
+
 end RegexVerif.Props.C05
